@@ -577,7 +577,7 @@ def r5_construction(chk, prog):
 
 
 def run(chk, prog):
-    chk.rules_live = ["R1", "R2", "R3", "R4", "R5"]
+    chk.rules_live = ["R1", "R2", "R3", "R4", "R5", "R6"]
     chk.explanation = (
         "Dominance/must-pass rules over the MIR of both threshold verifiers: the valid-signature "
         "counter is incremented only under the true edges of (a) keyid listed for the selected role "
@@ -603,3 +603,36 @@ def run(chk, prog):
     r4_key_verify(chk, prog)
     r3_parse_sites(chk, prog)
     r5_construction(chk, prog)
+    r6_codecs_refuse_nothing_extra(chk, prog)
+
+
+def r6_codecs_refuse_nothing_extra(chk, prog):
+    """'a document that does meet its threshold is not rejected': the text decoders every signature, key
+    id and digest passes through on parse (Decode for Hex / ..) fail exactly when the underlying codec
+    fails — e.g. an empty `sig` placeholder of a signer who has not signed yet stays parseable"""
+    n = 0
+    for b in prog.bodies.values():
+        if "/.cargo/" in b.file or " as tough::schema::decoded::Decode>::decode" not in b.path or "{closure" in b.path:
+            continue
+        ctx = ctx_of(prog, b.path)
+        chk.analysed_body(b)
+        n += 1
+        # every Err the decoder returns derives from a failing call of a foreign codec (hex::decode,
+        # pem::parse, ..): an `Err(..)` built from a literal error value is an extra rejection
+        errs = []
+        for blk in b.blocks:
+            if blk.cleanup:
+                continue
+            for s_ in blk.stmts:
+                if s_.k == "assign" and s_.rv.k == "agg" and s_.rv.j.get("variant") == "Err" and \
+                        str(s_.rv.j.get("adt", "")).endswith("result::Result"):
+                    src = deep_origins(ctx, s_.rv.ops[0], 4) if s_.rv.ops else set()
+                    from_codec = any(o.kind == "call" and not o.key[1].startswith("tough::") and
+                                     not o.key[1].startswith("snafu::") and not o.key[1].startswith("core::") for o in src)
+                    if not from_codec:
+                        errs.append(site_of(s_.sp))
+        chk.require(not errs, "R6", short_fn(b.path), "refuses-only-what-the-codec-refuses",
+                    "%s constructs an error of its own: input the underlying codec accepts (such as an empty string) makes "
+                    "the whole document unparseable, although its signatures may meet the threshold" % short_fn(b.path),
+                    errs[0] if errs else None)
+    chk.floor("R6", n, 1, "Decode implementations")
